@@ -222,13 +222,37 @@ func init() {
 			data []byte
 			tr   Transport
 		}
-		cases := [][]pres{
-			{{"tls", tlsPkt, TLS{}}, {"same block as websocket", asWebSocket(tlsPkt), WebSocket{}}},
-			{{"tls as websocket first", asWebSocket(tlsPkt), WebSocket{}}, {"then the original tls", tlsPkt, TLS{}}},
-			{{"websocket", wsPkt, WebSocket{}}, {"same block as tls", asTLS(template, hiddenOf(wsPkt)), TLS{}}},
-			{{"websocket as tls first", asTLS(template, hiddenOf(wsPkt)), TLS{}}, {"then the original websocket", wsPkt, WebSocket{}}},
-			{{"tls", tlsPkt, TLS{}}, {"tls again", tlsPkt, TLS{}}},
-			{{"websocket", wsPkt, WebSocket{}}, {"websocket again", wsPkt, WebSocket{}}},
+		// every ordered pair of representations of one sealed block: original packet, re-wrapped for
+		// either transport, and each of those with bit 255 of the ephemeral key flipped (the bit X25519
+		// ignores, so the server derives the same secret) - anyone who saw the handshake can build them
+		wsOf := func(sealed []byte) []byte {
+			return []byte("GET / HTTP/1.1\r\nHost: example.com\r\nUpgrade: websocket\r\nConnection: Upgrade\r\nSec-WebSocket-Key: AAAAAAAAAAAAAAAAAAAAAA==\r\nSec-WebSocket-Version: 13\r\nhidden: " +
+				base64.StdEncoding.EncodeToString(sealed) + "\r\n\r\n")
+		}
+		flip := func(sealed []byte) []byte {
+			v := append([]byte{}, sealed...)
+			v[31] ^= 0x80
+			return v
+		}
+		var cases [][]pres
+		for _, src := range []struct {
+			name   string
+			orig   []byte
+			tr     Transport
+			sealed []byte
+		}{{"tls", tlsPkt, TLS{}, sealedOf(tlsPkt)}, {"websocket", wsPkt, WebSocket{}, hiddenOf(wsPkt)}} {
+			reps := []pres{
+				{src.name + " original", src.orig, src.tr},
+				{"as tls", asTLS(template, src.sealed), TLS{}},
+				{"as websocket", wsOf(src.sealed), WebSocket{}},
+				{"as tls, key bit 255 flipped", asTLS(template, flip(src.sealed)), TLS{}},
+				{"as websocket, key bit 255 flipped", wsOf(flip(src.sealed)), WebSocket{}},
+			}
+			for _, a := range reps {
+				for _, b := range reps {
+					cases = append(cases, []pres{a, b})
+				}
+			}
 		}
 		for _, seq := range cases {
 			sta := &State{StaticPv: r.sta.StaticPv, UsedRandom: map[[32]byte]int64{}, WorldState: common.WorldState{Now: rtime.Now}}
